@@ -107,7 +107,6 @@ Lemma exec_sim sc s t g f b outs acts res s1 :
     Inv s1 (g :: f) b1 /\ Rel s1 t4 (g :: f) b1 /\
     ~ In g (t_order t4) /\ ~ In g (t_due t4) /\
     ok08 t4 = ok08 t /\
-    memz g (killq s1) = self_killed g acts false /\
     (NoLeak s -> NoLeak s1 /\ ok09 t4 = ok09 t).
 Proof.
   intros HI HR Hk Hnth Hrun Hwf t4.
@@ -141,26 +140,9 @@ Proof.
   { intros H. apply due_sp_actions in H. unfold exec_pre in H. sproj. apply In_remz in H. tauto. }
   split.
   { rewrite H08. unfold exec_pre. sproj. now rewrite C1, andb_true_r. }
-  split.
-  { assert (Hg1 : amem g (gens (set_pc s g (k + 1))) = true).
-    { sproj. unfold amem. now rewrite Eg. }
-    destruct (self_killed_run acts _ _ _ g Hrun Hg1 Hpos) as [E _]. sproj. now rewrite E, Hk. }
   intros L. assert (L1 : NoLeak (set_pc s g (k + 1))) by exact L.
   destruct (HL L1) as [L2 E9]. split; auto. rewrite E9. unfold exec_pre. sproj.
   rewrite C2, (run_actions_length _ _ _ _ Hrun), Nat.eqb_refl. now rewrite !andb_true_r.
-Qed.
-
-Lemma k9_step_of sc g k acts v :
-  k9 sc = false -> nth_error (script_of sc g) k = Some (acts, RReturn v) ->
-  self_killed g acts false = false.
-Proof.
-  intros Hk Hn. unfold script_of in Hn. destruct (alookup g sc) as [steps|] eqn:E.
-  - apply alookup_In in E. apply nth_error_In in Hn.
-    unfold k9 in Hk. destruct (self_killed g acts false) eqn:Es; auto.
-    assert (existsb (fun x => existsb (k9_step (fst x)) (snd x)) sc = true); [|congruence].
-    apply existsb_exists. exists (g, steps). split; auto. cbn [fst snd].
-    apply existsb_exists. exists (acts, RReturn v). split; auto.
-  - destruct k; discriminate.
 Qed.
 
 (* ---- the loop --------------------------------------------------------------- *)
@@ -171,7 +153,7 @@ Lemma loop_sim sc : forall fuel f s t b log s' e,
   e = false /\
   exists b', Inv s' [] b' /\ Rel s' (fold_left (sp_exec sc) log t) [] b' /\
              ok08 (fold_left (sp_exec sc) log t) = ok08 t /\
-             (k9 sc = false -> NoLeak s ->
+             (NoLeak s ->
               NoLeak s' /\ ok09 (fold_left (sp_exec sc) log t) = ok09 t).
 Proof.
   induction fuel as [|fuel IH]; intros f s t b log s' e HI HR Hl Hwf; [discriminate|].
@@ -187,7 +169,7 @@ Proof.
       rewrite Ed in Hl.
       destruct (IH _ _ _ _ _ _ _ HI1 HR1 Hl Hwf) as (-> & b' & HI' & HR' & H08 & HL').
       split; [reflexivity|]. exists b'. split; [exact HI'|]. split; [exact HR'|].
-      split; [exact H08|]. intros K L. apply HL'; auto. }
+      split; [exact H08|]. intros L. apply HL'; auto. }
     destruct (memz g (gdone s)) eqn:Hdn.
     { (* an exhausted generator is never queued *)
       exfalso. apply memz_In in Hdn. apply (i_done _ _ _ HI) in Hdn. congruence. }
@@ -202,7 +184,7 @@ Proof.
     cbn [fold_left] in *.
     pose proof (okwf_fold_mono _ _ _ Hwf) as Hwf1.
     destruct (exec_sim _ _ _ _ _ _ _ _ _ _ HI HR Hk Hnth Hrun Hwf1)
-      as (_ & b1 & HI1 & HR1 & Ho & Hd & H08 & Hsk & HL1).
+      as (_ & b1 & HI1 & HR1 & Ho & Hd & H08 & HL1).
     rewrite (sp_exec_unfold _ _ _ _ _ _ _ Hnth) in *.
     set (t4 := sp_actions (exec_pre t g (zget (pcs s) g) outs acts) acts outs) in *.
     destruct res as [y|v].
@@ -215,14 +197,14 @@ Proof.
         destruct (IH _ _ _ _ _ _ _ HI2 HR2 Hl Hwf) as (-> & b' & HI' & HR' & H08' & HL').
         split; auto. exists b'. split; auto. split; auto. split.
         -- now rewrite H08', ok08_sp_result.
-        -- intros K L. destruct (HL1 L) as [L1 E9]. destruct (HL' K (HL2 L1)) as [L' E9'].
+        -- intros L. destruct (HL1 L) as [L1 E9]. destruct (HL' (HL2 L1)) as [L' E9'].
            split; auto. now rewrite E9', ok09_sp_result.
       * (* rotated *)
         destruct (rotate_sim _ _ _ _ _ _ HI1 HR1 Ey Ho Hd) as (HI2 & HR2 & HL2).
         destruct (IH _ _ _ _ _ _ _ HI2 HR2 Hl Hwf) as (-> & b' & HI' & HR' & H08' & HL').
         split; auto. exists b'. split; auto. split; auto. split.
         -- now rewrite H08', ok08_sp_result.
-        -- intros K L. destruct (HL1 L) as [L1 E9]. destruct (HL' K (HL2 L1)) as [L' E9'].
+        -- intros L. destruct (HL1 L) as [L1 E9]. destruct (HL' (HL2 L1)) as [L' E9'].
            split; auto. now rewrite E9', ok09_sp_result.
     + (* returned *)
       destruct (finish_sim _ _ _ _ _ v HI1 HR1 Ho Hd) as (s2 & Ef & HI2 & HR2 & HL2).
@@ -230,9 +212,7 @@ Proof.
       destruct (IH _ _ _ _ _ _ _ HI2 HR2 Hl Hwf) as (-> & b' & HI' & HR' & H08' & HL').
       split; auto. exists b'. split; auto. split; auto. split.
       * now rewrite H08', ok08_sp_result.
-      * intros K L. destruct (HL1 L) as [L1 E9].
-        assert (Hk1 : memz g (killq s1) = false).
-        { rewrite Hsk. eapply k9_step_of; eauto. }
-        destruct (HL' K (HL2 L1 Hk1)) as [L' E9']. split; auto.
+      * intros L. destruct (HL1 L) as [L1 E9].
+        destruct (HL' (HL2 L1)) as [L' E9']. split; auto.
         now rewrite E9', ok09_sp_result.
 Qed.
